@@ -57,6 +57,10 @@ def check(R):
         ft = R.body('<tlv::traits::container::TLVContainer<T, C> as tlv::traits::FromTLV>::from_tlv')
         R.cut('P2', ft, 'wrap the element as a container (new_unchecked)', call_bbs(ft, 'tlv::traits::container::TLVContainer::new_unchecked'), 'the element is empty or a container (element.container() ok)',
               lambda: R.call_guard(ft, 'tlv::read::TLVElement::container') | R.call_guard(ft, 'tlv::read::TLVElement::is_empty'))
+        # ... and the constructors accept an EMPTY element (an absent field): iter() must not unwrap container() for it
+        it = R.body('tlv::traits::container::TLVContainer::iter')
+        R.cut('P2', it, 'unwrap element.container()', call_bbs(it, 'tlv::read::TLVElement::container'), 'the element is not empty (is_empty() == false)',
+              lambda: _fail_edges(R, it, 'tlv::read::TLVElement::is_empty'))
         # the three length sums use checked arithmetic
         for fn in ('tlv::read::TLVSequence::len', 'tlv::read::TLVSequence::container_len', 'tlv::read::TLVSequence::container_value_len'):
             b = R.body(fn)
@@ -140,4 +144,15 @@ def check(R):
             b = R.body('tlv::write::TLVWrite::' + m)
             vts = sorted({st[1].get('var') for i, j, st in b.stmts() if st[1].get('op') == 'agg' and st[1].get('adt') == 'tlv::TLVValueType'})
             R.expect('P5', b.fn, f'the full-width arm of TLVWrite::{m} writes value type {vt}', vts == [vt], f'{vts}', f'writes {vts}', f'{b.file}:{b.line}')
+
+
+def _fail_edges(R, body, callee):
+    e = set()
+    ts = body.calls(callee)
+    if not ts:
+        from facts import GuardMissing
+        raise GuardMissing(f'{body.fn}: no call of {callee}')
+    for t in ts:
+        e |= prims.track_result(R.facts, body, t).failure
+    return e
 
